@@ -486,9 +486,9 @@ theorem find?_congr_mem {β : Type} (l : List β) (q q' : β → Bool) (h : ∀ 
 theorem slots_eq_spec (m : MethodSpec) (c : Cooked) (d : PathDir) (subs : List PathSub) (args : Args)
     (ok : MethodOK m) (h : CookedFor m c d subs) :
     (if m.verb.hasBody then c.body else none) = specBody m ∧
-    (∀ anyCtx : Bool, ctxTag args (match c.ctx with
+    ctxTag args (match c.ctx with
       | some p => CtxMode.param p
-      | none => if anyCtx then CtxMode.missing else CtxMode.background) = specCtx m args) := by
+      | none => CtxMode.background) = specCtx m args := by
   obtain ⟨_, _, hcook⟩ := cookedFor_unpack m c d subs h
   obtain ⟨_, hc, hb, hone⟩ := cookParams_slots _ _ _ _ _ hcook
   constructor
@@ -506,11 +506,10 @@ theorem slots_eq_spec (m : MethodSpec) (c : Cooked) (d : PathDir) (subs : List P
         cases hk : p.kind <;> simp_all
       rw [this]
       cases m.params.find? isStructParam <;> rfl
-  · intro anyCtx
-    rw [hc, lastNamed_le_one isCtxParam _ m.params ok.oneCtx]
+  · rw [hc, lastNamed_le_one isCtxParam _ m.params ok.oneCtx]
     unfold specCtx
     cases m.params.find? isCtxParam with
-    | none => cases anyCtx <;> rfl
+    | none => rfl
     | some p =>
       have e : ((Option.map (fun x : Param => x.name) (some p)).or (none : Option String)) = some p.name := rfl
       rw [e]
@@ -521,10 +520,10 @@ theorem slots_eq_spec (m : MethodSpec) (c : Cooked) (d : PathDir) (subs : List P
 
 /-- the whole request of one call: what the emitted method hands to `c.client.Do` is the request the
     property describes -/
-theorem send_eq_spec (hs : List (String × String)) (anyCtx : Bool) (m : MethodSpec)
+theorem send_eq_spec (hs : List (String × String)) (m : MethodSpec)
     (c : Cooked) (d : PathDir) (subs : List PathSub) (args : Args)
     (ok : MethodOK m) (aok : ArgsOK m args) (h : CookedFor m c d subs) :
-    ∃ r, send (planOf hs anyCtx m.name c d subs) args = .sent r ∧
+    ∃ r, send (planOf hs m.name c d subs) args = .sent r ∧
       r.verb = m.verb.upper ∧ r.path = specPath m args ∧ r.query.getD [] = specQuery m args ∧
       r.body = specBody m ∧ r.headers = headersFor hs m.verb ∧ r.ctx = specCtx m args := by
   obtain ⟨hd, _, _⟩ := cookedFor_unpack m c d subs h
@@ -536,7 +535,7 @@ theorem send_eq_spec (hs : List (String × String)) (anyCtx : Bool) (m : MethodS
   cases hv : m.verb.hasBody with
   | true =>
     simp only [Bool.true_or, ↓reduceIte]
-    refine ⟨_, rfl, rfl, hpath, ?_, ?_, rfl, hctx anyCtx⟩
+    refine ⟨_, rfl, rfl, hpath, ?_, ?_, rfl, hctx⟩
     · simp [specQuery, hv]
     · rw [← hbody, hv]; rfl
   | false =>
@@ -545,14 +544,14 @@ theorem send_eq_spec (hs : List (String × String)) (anyCtx : Bool) (m : MethodS
     have hb' : (none : Option String) = specBody m := by rw [← hbody, hv]; rfl
     by_cases he : ((queryOpsOf c).isEmpty && c.dict.isNone) = true
     · simp only [he, ↓reduceIte]
-      refine ⟨_, rfl, rfl, hpath, ?_, hb', rfl, hctx anyCtx⟩
+      refine ⟨_, rfl, rfl, hpath, ?_, hb', rfl, hctx⟩
       simp only [Bool.and_eq_true, List.isEmpty_iff, Option.isNone_iff_eq_none] at he
       rw [he.1] at hq
       rw [he.2] at hdict
       simp only [runQueryOps, Option.some.injEq] at hq
       simp [specQuery, hv, ← hq, ← hdict, dictSets, setAll]
     · simp only [he, Bool.false_eq_true, ↓reduceIte, hq]
-      refine ⟨_, rfl, rfl, hpath, ?_, hb', rfl, hctx anyCtx⟩
+      refine ⟨_, rfl, rfl, hpath, ?_, hb', rfl, hctx⟩
       simp [specQuery, hv, hdict]
 
 /-! ### the region predicate -/
@@ -564,16 +563,12 @@ theorem noBrace_of_contains (s : List Char) (h : s.contains '{' = false) : noBra
   rw [h] at this; cases this
 
 theorem region_wf (i : IfaceSpec) (calls : List Call) (h : region i calls = "WF") :
-    structOk i = true ∧ F_mixedCtx i = false ∧ F_bodyNoStruct i = false ∧ F_ptrDict i = false ∧
+    structOk i = true ∧ F_ptrDict i = false ∧
     F_twoDicts i = false ∧ F_qualScalar i = false ∧ F_nilStructDeref i calls = false ∧
     F_pathArgBrace i calls = false := by
   unfold region at h
   cases h0 : structOk i <;> simp only [h0, Bool.not_false, Bool.not_true, Bool.false_eq_true, ↓reduceIte] at h
   · exact absurd h (by decide)
-  cases h1 : F_mixedCtx i <;> simp only [h1, Bool.false_eq_true, ↓reduceIte] at h
-  case true => exact absurd h (by decide)
-  cases h2 : F_bodyNoStruct i <;> simp only [h2, Bool.false_eq_true, ↓reduceIte] at h
-  case true => exact absurd h (by decide)
   cases h3 : F_ptrDict i <;> simp only [h3, Bool.false_eq_true, ↓reduceIte] at h
   case true => exact absurd h (by decide)
   cases h4 : F_twoDicts i <;> simp only [h4, Bool.false_eq_true, ↓reduceIte] at h
@@ -584,6 +579,6 @@ theorem region_wf (i : IfaceSpec) (calls : List Call) (h : region i calls = "WF"
   case true => exact absurd h (by decide)
   cases h7 : F_pathArgBrace i calls <;> simp only [h7, Bool.false_eq_true, ↓reduceIte] at h
   case true => exact absurd h (by decide)
-  exact ⟨rfl, rfl, rfl, rfl, rfl, rfl, rfl, rfl⟩
+  exact ⟨rfl, rfl, rfl, rfl, rfl, rfl⟩
 
 end ShootVerif.Rest
